@@ -1,5 +1,7 @@
 //! Utilities for iteration operators
 
+#[cfg(renoir_verif)]
+use simrt::stdshim as std;
 use std::cell::UnsafeCell;
 use std::fmt::{Debug, Formatter};
 use std::sync::{Arc, Condvar, Mutex};
